@@ -30,6 +30,8 @@ func selfTest() error {
 	stores[5].Labels = append(stores[5].Labels, labelKV{"specialUse", "reserved"})
 	stores[6].AvailGiB, stores[6].RegionCount, stores[6].RegionSizeMiB = 100, 0, 0
 	stores[6].Labels[1].V = "rf"
+	stores[7].Labels[0].K = "Zone" // label keys are case-insensitive
+	stores[2].Labels[0].K = "ZONE"
 	w := &world{Mode: modeLegacy, MaxReplicas: 3, LocationLabels: []string{"zone", "host"}, IsolationLevel: "zone",
 		Switches: switches{true, true, true, true, true}, LowSpaceRatio: 0.8, ReplicaScheduleLimit: 64, Rules: "off", Stores: stores}
 	cl, err := newCluster(w)
